@@ -1,6 +1,7 @@
 package main
 
 import (
+	"runtime/debug"
 	"runtime/pprof"
 	"time"
 	"flag"
@@ -58,6 +59,7 @@ func harnessRoot() string {
 }
 
 func main() {
+	debug.SetGCPercent(400)
 	if pf := os.Getenv("VERIF_PPROF"); pf != "" {
 		f, _ := os.Create(pf)
 		pprof.StartCPUProfile(f)
